@@ -298,9 +298,11 @@ pub struct QueryKnobs {
     pub p_typename: (u32, u32),
     pub p_count_output: (u32, u32),
     pub p_count_filter: (u32, u32),
-    /// known-defect triggers (F-4, F-5, F-9, F-10): rare in C01's setting, frequent in C09's
+    /// known-defect triggers (F-4, F-5): rare in C01's setting, frequent in C09's
     pub p_invalid_regex: (u32, u32),
     pub p_list_ordering: (u32, u32),
+    /// formerly defect triggers (F-9, F-10; repaired in the engine), now ordinary shapes: a count
+    /// filter on a fold inside an @optional scope / the same tag used again inside one fold
     pub p_count_filter_in_optional: (u32, u32),
     pub p_dup_import: (u32, u32),
 }
@@ -327,8 +329,8 @@ impl Default for QueryKnobs {
             p_count_filter: (2, 5),
             p_invalid_regex: (1, 40),
             p_list_ordering: (1, 60),
-            p_count_filter_in_optional: (1, 40),
-            p_dup_import: (1, 40),
+            p_count_filter_in_optional: (1, 4),
+            p_dup_import: (1, 4),
         }
     }
 }
@@ -344,15 +346,10 @@ impl QueryKnobs {
             ..Default::default()
         }
     }
-    /// No known-defect trigger is ever generated.
+    /// No known-defect trigger is ever generated (count filters under @optional and repeated tag
+    /// uses inside a fold are ordinary shapes since the repairs of F-9 and F-10).
     pub fn clean() -> Self {
-        QueryKnobs {
-            p_invalid_regex: (0, 1),
-            p_list_ordering: (0, 1),
-            p_count_filter_in_optional: (0, 1),
-            p_dup_import: (0, 1),
-            ..Default::default()
-        }
+        QueryKnobs { p_invalid_regex: (0, 1), p_list_ordering: (0, 1), ..Default::default() }
     }
 }
 
